@@ -107,6 +107,13 @@ def generate(tier, seed, ctx):
             else:
                 R.append("c12.sel %d %s %s 0" % (n, hx(a), hx(b)))
             ctx["cls"][len(R) - 1] = "exh:" + cls
+    else:             # quick tier (seventh wave, C12-r): a random sample of the orders 513..4000 on the cheap clauses - 320 even and
+        # 160 odd orders, so that a defect hitting a few per cent of the large orders of one parity (a Newton loop that cycles in
+        # rounding noise: the call never returns) is met with probability 1 - 1e-5 on every run; thorough takes every order
+        for n in sorted(set([2 * rng.randint(257, 2000) for _ in range(320)] + [2 * rng.randint(256, 1999) + 1 for _ in range(160)])):
+            cls, a, b = ("canon", -1.0, 1.0) if n % 4 == 0 else rng.choice(_intervals(rng, 7, thorough))
+            R.append("c12.sel %d %s %s 0" % (n, hx(a), hx(b)))
+            ctx["cls"][len(R) - 1] = "exh:" + cls
     # sample of large orders, odd and even
     if thorough:
         big = [4000, 3999] + [rng.randint(513, 4000) for _ in range(22)]
